@@ -82,7 +82,7 @@ def build(case: dict, ctx: RunContext | None = None) -> RunContext:
         install_synthetic_eop(start.date() - dt.timedelta(days=1), stop.date() + dt.timedelta(days=span_days))
     from resonaate.scenario import buildScenarioFromConfigDict
 
-    ctx.dir = os.path.join(scratch_dir(), f"run-{os.getpid()}")
+    ctx.dir = case.get("_dir") or os.path.join(scratch_dir(), f"run-{os.getpid()}")
     os.makedirs(ctx.dir, exist_ok=True)
     ctx.db_path = os.path.join(ctx.dir, "out.sqlite3")
     if os.path.exists(ctx.db_path):
